@@ -28,7 +28,7 @@ use rustc_middle::ty::{self, Instance, TyCtxt, TypingEnv};
 use rustc_span::{ExpnKind, Span};
 use std::fmt::Write as _;
 
-const DRIVER_VERSION: &str = "factdrv-1";
+const DRIVER_VERSION: &str = "factdrv-2";
 
 // ---------------------------------------------------------------- JSON helpers
 fn js(s: &str) -> String {
@@ -285,6 +285,12 @@ impl<'tcx> Cx<'tcx> {
             let sig = tcx.fn_sig(did).skip_binder().skip_binder();
             o = o.s("ret", &sig.output().to_string());
             o = o.r("sig", arr(sig.inputs().iter().map(|t| js(&t.to_string())).collect()));
+            // generic parameters in substitution order (parent's first), aligned with the `gargs` of a call to this item
+            let gens = tcx.generics_of(did);
+            let names: Vec<String> = (0..gens.count()).map(|i| js(gens.param_at(i, tcx).name.as_str())).collect();
+            if !names.is_empty() {
+                o = o.r("generics", arr(names));
+            }
             if let Some(ti) = tcx.trait_item_of(did) {
                 o = o.s("trait_item", &tcx.def_path_str(ti));
             }
@@ -609,6 +615,13 @@ impl<'tcx> Cx<'tcx> {
             }
             P::Deref(x) => {
                 o = o.s("k", "deref").r("p", self.pat(x));
+            }
+            P::Slice(before, mid, after) => {
+                o = o.s("k", "slice").r("before", arr(before.iter().map(|x| self.pat(x)).collect()));
+                if let Some(m) = mid {
+                    o = o.r("mid", self.pat(m));
+                }
+                o = o.r("after", arr(after.iter().map(|x| self.pat(x)).collect()));
             }
             P::Expr(pe) => match &pe.kind {
                 hir::PatExprKind::Lit { lit, negated } => {
